@@ -165,7 +165,7 @@ fn maybe_reorder(case: &mut Case, r: &mut Prng, per_mille: u32) {
 pub const META_C02: Meta = Meta {
     id: "C02",
     level: "exploration",
-    rule: "Cases from profiles `flow`+`expand` (C/X rows, loops) with both driver variants (overriding write_input or not), random output layouts and, in 35% of cases, a driver error injected at a random call index. The recording driver logs every call before answering. Online protocol oracle after every step: constructor = exactly one output-reading call with all input-capable signals at default and changed=false; each row = exactly one call whose input list is element-wise identical (signal, value, changed) to row.inputs; output-reading call for checked rows, write_input for mid-clock rows (empty outputs); driver-error item = exactly the failing call; End = no call; nothing after End; every logged call accounted for; device-side vectors equal the prescribed ones. 40% of the error-free cases are run again with the caller consuming the iterator through nth(k) / by_ref().skip(k).next() / step_by(s) / count() / last(): the driver's call log must equal the plain run's call for call and every delivered item must be the plain run's item at that position; 25% are run against a driver TYPE that implements only the required method, so that mid-clock rows go through the trait's own default write_input (same items, same number of calls, same inputs, every call output-reading). Non-trivial = >= 3 rows, call log >= 4, and a C expansion or an injected fault.",
+    rule: "Cases from profiles `flow`+`expand` (C/X rows, loops) with both driver variants (overriding write_input or not), random output layouts and, in 35% of cases, a driver error injected at a random call index. The recording driver logs every call before answering. Online protocol oracle after every step: constructor = exactly one output-reading call with all input-capable signals at default and changed=false; each row = exactly one call whose input list is element-wise identical (signal, value, changed) to row.inputs; output-reading call for checked rows, write_input for mid-clock rows (empty outputs); driver-error item = exactly the failing call; End = no call; nothing after End; every logged call accounted for; device-side vectors equal the prescribed ones. 40% of the error-free cases are run again with the caller consuming the iterator through nth(k) / by_ref().skip(k).next() / step_by(s) / count() / last() / collect() / for_each / fold / find (try_fold) / filter+map: the driver's call log must equal the plain run's call for call and every delivered item must be the plain run's item at that position; 25% are run against a driver TYPE that implements only the required method, so that mid-clock rows go through the trait's own default write_input (same items, same number of calls, same inputs, every call output-reading). Non-trivial = >= 3 rows, call log >= 4, and a C expansion or an injected fault.",
     assumptions: &[
         "the recording driver sees every call the crate makes (it is the only TestDriver instance)",
         "reference interpreter decides which rows are checked / mid-clock",
